@@ -1,5 +1,5 @@
 CONSTANTS
-  Models = {"pheno", "mox2"}
+  Models = {"pheno", "mox2", "phenoexp"}
   MaxHist = 9
   Groups = {"cov", "eta", "err", "abs"}
 INIT TraceInit
